@@ -2,13 +2,14 @@
 """Regenerates MANIFEST.json from checks.json + manifest_meta.json (texts per property)."""
 import json, os, subprocess
 V = os.path.dirname(os.path.abspath(__file__))
+accepted = json.load(open(os.path.join(V, "accepted.json")))
 conf = {}
 base = os.path.join(V, "harness", "checks")
 for d in sorted(os.listdir(base)):
     p = os.path.join(base, d, "check.json")
     if os.path.exists(p):
         c = json.load(open(p))
-        if c.get("manifest") and not c.get("disabled"):
+        if c.get("manifest") and not c.get("disabled") and c["id"] in accepted:
             conf[c["id"]] = c
 meta = json.load(open(os.path.join(V, "manifest_meta.json")))
 props = [json.loads(l)["id"] for l in open(os.path.join(V, "properties.jsonl"))]
